@@ -22,6 +22,26 @@ META = {
  "C09-m2": ("`vegeta attack` wraps its output file in a bufio.Writer with deferred Flush", "the writer being killed (or observed) mid-attack: file torn at 4096-byte slabs / results missing"),
  "C10-m1": ("End overwritten whenever Latest advances (if/else-if fold)", "a later-started but earlier-finishing result added after an earlier-started, later-finishing one"),
  "C10-m2": ("Close drops the error de-duplication index", "an error text recurring after an intermediate Close (periodic reporting)"),
+ "C11-m1": ("t-digest wrapper coalesces runs of equal samples into one weighted centroid", "few-valued latencies with unequal frequencies arriving in long stretches of equal values (sorted / phased arrival); shuffled arrival of the same multiset is fine"),
+ "C11-m2": ("`seen` flag replaced by Total == 0 as the 'nothing added yet' test", "zero latencies forming a prefix of the arrival order, followed by a non-zero one"),
+ "C12-m1": ("Histogram.Add rewritten as a binary search with an inclusive upper bound", "a latency exactly equal to an interior bucket bound"),
+ "C12-m2": ("Histogram.MarshalJSON iterates over Counts instead of Buckets", "JSON rendering of a histogram before any result was added"),
+ "C13-m1": ("round-robin decoder polls at most n-1 decoders per call", "inputs of unequal length such that n-1 adjacent inputs run dry while another still has records"),
+ "C13-m2": ("`report` reuses one Result across iterations", "gob input in which a zero-valued field follows a non-zero one (gob omits zero fields), dependent on split and encoding mix"),
+ "C14-m1": ("ReadAllTargets reuses one Target across iterations (JSON targeter then appends into the previous header map)", "JSON format, eager path, >= 2 targets, >= 1 header"),
+ "C14-m2": ("skip-blank-and-comment loop rewritten; exhaustion lost after a trailing comment", "a file whose last non-blank line is a comment that follows a blank line or a body line"),
+ "C15-m1": ("JSON targeter reads lines with ReadSlice (view into the bufio buffer) while decoding outside the lock", ">= 2 concurrent callers, input larger than the 4 KiB buffer, a refill between unlock and decode"),
+ "C15-m2": ("static targeter keeps its cursor in range with add-then-store", ">= 2 targets and concurrent callers crossing the wrap point together (all accesses atomic: no race report)"),
+ "C16-m1": ("startsWithHTTPMethod regexp replaced by a manual scan without end-of-string check", "a header-position line consisting only of upper-case ASCII letters"),
+ "C16-m2": ("JSON targeter returns from inside the locked read loop without unlocking", "a further call on the same targeter after one call reached end of input or a read error: blocks forever"),
+ "C17-m1": ("tsz block allocated eagerly at a fixed origin again (the fix of this task undone as a 'tidy-up')", "a labelled series whose first point lies >= 2^27 ms after the attack's first request"),
+ "C17-m2": ("`vegeta plot` decodes every result into one hoisted Result", "gob input where an OK result follows an ERROR result, or seq 0 is not the first record (CLI path only, lib API unchanged)"),
+ "C18-m1": ("clone idiom slip: append(cached[:0], cached...) aliases the DNS cache entry", "dual-stack name with >= 3 addresses dialled repeatedly (cache collapses), or concurrent dials under -race"),
+ "C18-m2": ("ConnectTo uses one rotation counter for all mapped addresses", ">= 2 mapped sources dialled in a periodic pattern"),
+ "C19-m1": ("bare `-rate N` returns early and keeps the unit of an earlier -rate", "a sequence of -rate flags: N/D with D != 1s followed by a bare N"),
+ "C19-m2": ("NewResolver validates with normalizeAddrs but dials the un-normalised list", "a -resolvers entry without a port"),
+ "C20-m1": ("per-label-set series cache resolves the fail counter without the message label", ">= 2 failed results sharing (method,url,status) with different error messages"),
+ "C20-m2": ("label values kept in a scratch buffer shared by all Observe calls", ">= 2 goroutines observing different label sets at the same time"),
 }
 root = "/verif/seeded"
 for k, (desc, needs) in META.items():
